@@ -2,7 +2,7 @@
    Model: Model/C04Sources.v (`pipeline`, in the shape of get_defaults / _load_env_vars / merge_config /
    apply_config / the argv fold).  Reference semantics: Spec/C04Spec.v (`fold_sources`, the left fold of
    apply_assignment over defaults, default config files, environment, given items).  Proofs: Proofs/C04*.v. *)
-From JV Require Import Lib.Base Lib.C04Base Model.C04Sources Spec.C04Spec Model.C04Wf
+From JV Require Import Lib.Base Lib.C04Base Model.C04Sources Model.C04Sub Spec.C04Spec Model.C04Wf
   Proofs.C04Tree Proofs.C04Merge Proofs.C04Proofs Proofs.C04Props.
 From Coq Require Import List Bool ZArith.
 Import ListNotations.
@@ -53,3 +53,15 @@ Print Assumptions C04_precedence_unguarded_refuted.
 Example C04_hypotheses_satisfiable :
   call_class ex_call = 0%N /\ final_values ex_call = [VTok 7; VList [1; 2; 9; 5]%Z].
 Proof. vm_compute. split; reflexivity. Qed.
+
+(* ---- one level of subcommands (Model/C04Sub.v pipeline_sub, Spec flat_call) ----------------------------
+   NOT covered by C04_precedence: calls with a subcommand are judged case by case by Corr/C04Judge.v
+   (class 2).  The example shows the modelled space is inhabited and that on it the composed pipeline and
+   the documented fold over the keys of both levels agree: the environment variable f.x=3 loses against
+   the earlier command-line config f.x=5 although a later config touches the same subcommand. *)
+Example C04_subcommand_example :
+  scall_class ex_scall = 2%N /\
+  final_values_sub ex_scall = [VTok 2; VTok 5; VList [6; 9]%Z] /\
+  option_map (observe_values (all_decls ex_scall))
+    (match pipeline_sub ex_scall with Ok t => Some t | _ => None end) = Some (final_values_sub ex_scall).
+Proof. vm_compute. repeat split; reflexivity. Qed.
